@@ -1602,6 +1602,16 @@ static int cfg_parse_internal(cfg_t *cfg, int level, int force_state, cfg_opt_t 
 				free(opttitle);
 			opttitle = NULL;
 
+			/* The section may stem from cfg_init() or from another file */
+			if (cfg->filename && (!val->section->filename || strcmp(val->section->filename, cfg->filename))) {
+				char *fn = strdup(cfg->filename);
+
+				if (!fn)
+					goto error;
+				free(val->section->filename);
+				val->section->filename = fn;
+			}
+
 			val->section->path = cfg->path; /* Remember global search path */
 			val->section->line = cfg->line;
 			val->section->errfunc = cfg->errfunc;
